@@ -81,7 +81,8 @@ def run(ctx):
     r = ctx.rng
     ctx.rule = ('spaces: all single types, all pairs, random larger subsets of the registered types (boxes in observation spaces) x colour subsets x shapes; '
                 'per space and representation: EVERY object of the space encoded in the hand and in a cell (default triple, disjoint channels, compact = 0..N-1, '
-                'model comparison); pairs of members differing in exactly one feature (equal representation iff ==; == => equal hash); marker; '
+                'model comparison); pairs of members differing in exactly one feature (equal representation iff ==; == => equal hash); marker; states REACHED through the '
+                'library\'s own dynamics after having been hashed vs equal states built from scratch (==, hash, per-object hash, all three encodings); user-registered and same-named types; '
                 'non-trivial = distinct (space, representation, pair / object)')
     subsets = [[t] for t in rsuite.REPRESENTABLE] + [list(c) for c in itt.combinations(rsuite.REPRESENTABLE, 2)]
     for _ in range(40 if ctx.tier == 'quick' else 400):
